@@ -16,6 +16,126 @@
 
 #include "sampler_spec.h"
 
+#include "opentelemetry/context/context.h"
+#include "opentelemetry/context/runtime_context.h"
+#include "opentelemetry/sdk/resource/resource.h"
+#include "opentelemetry/sdk/trace/exporter.h"
+#include "opentelemetry/sdk/trace/id_generator.h"
+#include "opentelemetry/sdk/trace/recordable.h"
+#include "opentelemetry/sdk/trace/samplers/always_off_factory.h"
+#include "opentelemetry/sdk/trace/samplers/always_on_factory.h"
+#include "opentelemetry/sdk/trace/samplers/parent_factory.h"
+#include "opentelemetry/sdk/trace/samplers/trace_id_ratio_factory.h"
+#include "opentelemetry/sdk/trace/simple_processor.h"
+#include "opentelemetry/sdk/trace/span_data.h"
+#include "opentelemetry/sdk/trace/tracer_provider.h"
+#include "opentelemetry/trace/context.h"
+#include "opentelemetry/trace/default_span.h"
+#include "opentelemetry/trace/span_startoptions.h"
+#include "opentelemetry/trace/tracer.h"
+
+namespace context = opentelemetry::context;
+
+// a counting user-provided sampler has to stay reachable from the harness: the tree owns this forwarder
+class Fwd : public trace_sdk::Sampler
+{
+public:
+  explicit Fwd(std::shared_ptr<trace_sdk::Sampler> s) : s_(std::move(s)) {}
+  trace_sdk::SamplingResult ShouldSample(const trace_api::SpanContext &p, trace_api::TraceId t, nostd::string_view n,
+                                         trace_api::SpanKind k, const common::KeyValueIterable &a,
+                                         const trace_api::SpanContextKeyValueIterable &l) noexcept override
+  {
+    return s_->ShouldSample(p, t, n, k, a, l);
+  }
+  nostd::string_view GetDescription() const noexcept override { return s_->GetDescription(); }
+
+private:
+  std::shared_ptr<trace_sdk::Sampler> s_;
+};
+
+// the sampler tree of a spec, built through the factories (`f`) or through the constructors
+static bool build_sampler(const std::string &spec, bool f, std::unique_ptr<trace_sdk::Sampler> &out,
+                          std::shared_ptr<CustomSampler> &custom, bool &nan)
+{
+  auto parts = split_on(spec, '/');
+  auto leaf  = split_on(parts.back(), '=');
+  std::unique_ptr<trace_sdk::Sampler> s;
+  if (leaf.size() == 1 && leaf[0] == "on")
+  {
+    if (f) s = trace_sdk::AlwaysOnSamplerFactory::Create();
+    else s.reset(new trace_sdk::AlwaysOnSampler);
+  }
+  else if (leaf.size() == 1 && leaf[0] == "off")
+  {
+    if (f) s = trace_sdk::AlwaysOffSamplerFactory::Create();
+    else s.reset(new trace_sdk::AlwaysOffSampler);
+  }
+  else if (leaf.size() == 2 && leaf[0] == "ratio")
+  {
+    double r;
+    if (!parse_bits(leaf[1], r, nan)) return false;
+    if (nan) return true;
+    if (f) s = trace_sdk::TraceIdRatioBasedSamplerFactory::Create(r);
+    else s.reset(new trace_sdk::TraceIdRatioBasedSampler(r));
+  }
+  else if (leaf.size() == 3 && leaf[0] == "custom")
+  {
+    std::shared_ptr<trace_sdk::Sampler> tmp;
+    if (!parse_sampler(parts.back(), tmp, custom, nan)) return false;
+    s.reset(new Fwd(custom));
+  }
+  else return false;
+  for (size_t i = parts.size() - 1; i-- > 0;)
+  {
+    if (parts[i] != "pb") return false;
+    std::shared_ptr<trace_sdk::Sampler> d(std::move(s));
+    if (f) s = trace_sdk::ParentBasedSamplerFactory::Create(d);
+    else s.reset(new trace_sdk::ParentBasedSampler(d));
+  }
+  out = std::move(s);
+  return true;
+}
+
+// which overload family a case uses rotates with its text
+static size_t rot_of(const std::vector<std::string> &t)
+{
+  size_t h = 0;
+  for (auto &x : t)
+    for (char c : x) h = h * 131 + static_cast<unsigned char>(c);
+  return h >> 3;
+}
+
+class FixedIdGenerator : public trace_sdk::IdGenerator
+{
+public:
+  explicit FixedIdGenerator(trace_api::TraceId t) : trace_sdk::IdGenerator(false), t_(t) {}
+  trace_api::SpanId GenerateSpanId() noexcept override
+  {
+    const uint8_t b[8] = {0x51, 0x52, 0x53, 0x54, 0x55, 0x56, 0x57, 0x58};
+    return trace_api::SpanId(b);
+  }
+  trace_api::TraceId GenerateTraceId() noexcept override { return t_; }
+
+private:
+  trace_api::TraceId t_;
+};
+
+class NullExporter final : public trace_sdk::SpanExporter
+{
+public:
+  std::unique_ptr<trace_sdk::Recordable> MakeRecordable() noexcept override
+  {
+    return std::unique_ptr<trace_sdk::Recordable>(new trace_sdk::SpanData);
+  }
+  opentelemetry::sdk::common::ExportResult Export(
+      const nostd::span<std::unique_ptr<trace_sdk::Recordable>> &) noexcept override
+  {
+    return opentelemetry::sdk::common::ExportResult::kSuccess;
+  }
+  bool ForceFlush(std::chrono::microseconds) noexcept override { return true; }
+  bool Shutdown(std::chrono::microseconds) noexcept override { return true; }
+};
+
 // one decision of the ratio sampler for an id, asked several times with everything else varied (parent context,
 // name, kind, attributes, links, a second sampler object built from the same ratio): '0'/'1', 'V' if the answers
 // vary, 'x' for anything but DROP / RECORD_AND_SAMPLE with null trace state and null attributes
@@ -32,7 +152,11 @@ static char ratio_decision(double ratio, trace_sdk::TraceIdRatioBasedSampler &s,
   trace_api::SpanContext sampled_remote(trace_api::TraceId(tidb), trace_api::SpanId(sidb), trace_api::TraceFlags(1), true,
                                         trace_api::TraceState::FromHeader("a=b"));
   trace_api::SpanContext unsampled_local(trace_api::TraceId(tidb), trace_api::SpanId(sidb), trace_api::TraceFlags(0), false);
-  trace_sdk::TraceIdRatioBasedSampler s2(ratio);
+  // a second sampler object from the same ratio, through the constructor or the factory
+  std::unique_ptr<trace_sdk::Sampler> s2p =
+      (id.Id()[15] & 1) ? trace_sdk::TraceIdRatioBasedSamplerFactory::Create(ratio)
+                        : std::unique_ptr<trace_sdk::Sampler>(new trace_sdk::TraceIdRatioBasedSampler(ratio));
+  trace_sdk::Sampler &s2 = *s2p;
   trace_sdk::SamplingResult r[4] = {
       s.ShouldSample(trace_api::SpanContext::GetInvalid(), id, "", trace_api::SpanKind::kInternal,
                      common::KeyValueIterableView<M>(attrs0), trace_api::SpanContextKeyValueIterableView<L>(links0)),
@@ -87,7 +211,11 @@ static std::string handle_sm(const std::vector<std::string> &t)
         outs.push_back("nan-ub");  // static_cast<uint64_t>(NaN) is undefined behaviour: never executed
         continue;
       }
-      trace_sdk::TraceIdRatioBasedSampler s(v.first);
+      // the sampler whose threshold_ is read: built by the constructor or by the factory
+      std::unique_ptr<trace_sdk::Sampler> sp =
+          ((rot_of(t) + outs.size()) & 1) ? trace_sdk::TraceIdRatioBasedSamplerFactory::Create(v.first)
+                                          : std::unique_ptr<trace_sdk::Sampler>(new trace_sdk::TraceIdRatioBasedSampler(v.first));
+      auto &s = *static_cast<trace_sdk::TraceIdRatioBasedSampler *>(sp.get());
       std::string d;
       for (auto &id : ids) d.push_back(ratio_decision(v.first, s, id));
       outs.push_back("T=" + hex16(s.threshold_) + " D=" + d);
@@ -96,12 +224,12 @@ static std::string handle_sm(const std::vector<std::string> &t)
   }
   if (t.size() == 5 && t[1] == "sample")
   {
-    std::shared_ptr<trace_sdk::Sampler> s;
+    std::unique_ptr<trace_sdk::Sampler> s;
     std::shared_ptr<CustomSampler> custom;
     bool nan = false;
     trace_api::SpanContext parent(false, false);
     trace_api::TraceId tid;
-    if (!parse_sampler(t[2], s, custom, nan) || nan || !parse_parent(t[3], parent) || !parse_trace_id(t[4], tid))
+    if (!build_sampler(t[2], rot_of(t) & 1, s, custom, nan) || nan || !parse_parent(t[3], parent) || !parse_trace_id(t[4], tid))
       return "bad-op";
     using M = std::map<std::string, int>;
     M attrs;
@@ -112,6 +240,61 @@ static std::string handle_sm(const std::vector<std::string> &t)
     if (r.attributes) return "ERR attributes-not-null";
     return "dec=" + std::to_string(dec_code(r.decision)) + " ts=" + show_ts(r.trace_state) +
            " calls=" + std::to_string(custom ? custom->calls : 0);
+  }
+  // sm span <spec> <parent> <tid> <c|x|a|r>: the sampled flag, recording state and trace state of a span started through a
+  // real Tracer whose sampler is <spec> and whose id generator hands out <tid>; the parent is supplied as
+  // options.parent = SpanContext (c), options.parent = Context carrying the span (x), the span active on the thread (a),
+  // or it is active on the thread but options.parent is a Context with the is_root_span flag (r)
+  if (t.size() == 6 && t[1] == "span")
+  {
+    std::unique_ptr<trace_sdk::Sampler> s, direct;
+    std::shared_ptr<CustomSampler> custom, custom2;
+    bool nan = false;
+    trace_api::SpanContext parent(false, false);
+    trace_api::TraceId tid;
+    const std::string &how = t[5];
+    if (how != "c" && how != "x" && how != "a" && how != "r") return "bad-op";
+    const bool f = rot_of(t) & 1;
+    if (!build_sampler(t[2], f, s, custom, nan) || nan || !parse_parent(t[3], parent) || !parse_trace_id(t[4], tid))
+      return "bad-op";
+    build_sampler(t[2], !f, direct, custom2, nan);
+    std::string out;
+    {
+      trace_sdk::TracerProvider provider(
+          std::unique_ptr<trace_sdk::SpanProcessor>(
+              new trace_sdk::SimpleSpanProcessor(std::unique_ptr<trace_sdk::SpanExporter>(new NullExporter))),
+          opentelemetry::sdk::resource::Resource::Create({}), std::move(s),
+          std::unique_ptr<trace_sdk::IdGenerator>(new FixedIdGenerator(tid)));
+      auto tracer = provider.GetTracer("c12", "1");
+      trace_api::StartSpanOptions o;
+      nostd::unique_ptr<context::Token> token;
+      nostd::shared_ptr<trace_api::Span> pspan(new trace_api::DefaultSpan(parent));
+      if (how == "c") o.parent = parent;
+      else if (how == "x") o.parent = context::Context{}.SetValue(trace_api::kSpanKey, pspan);
+      else
+      {
+        token = context::RuntimeContext::Attach(context::RuntimeContext::GetCurrent().SetValue(trace_api::kSpanKey, pspan));
+        if (how == "r") o.parent = context::Context{}.SetValue(trace_api::kIsRootSpanKey, true);
+      }
+      auto span = (rot_of(t) & 2) ? tracer->StartSpan("", o) : tracer->StartSpan("", {{"k", 1}}, o);
+      auto sc   = span->GetContext();
+      int dec   = sc.IsSampled() ? 2 : span->IsRecording() ? 1 : 0;
+      // what a sampler built from the same spec says when asked directly about this trace id
+      using M = std::map<std::string, int>;
+      M attrs;
+      using L = std::vector<std::pair<trace_api::SpanContext, std::map<std::string, std::string>>>;
+      L links;
+      auto r = direct->ShouldSample(how == "r" ? trace_api::SpanContext::GetInvalid() : parent, sc.trace_id(), "",
+                                    trace_api::SpanKind::kInternal, common::KeyValueIterableView<M>(attrs),
+                                    trace_api::SpanContextKeyValueIterableView<L>(links));
+      out = "dec=" + std::to_string(dec) + " ts=" + show_ts(sc.trace_state()) +
+            " calls=" + std::to_string(custom ? custom->calls : 0) +
+            " tid=" + vh::to_hex(reinterpret_cast<const char *>(sc.trace_id().Id().data()), 16) +
+            " sdec=" + std::to_string(dec_code(r.decision));
+      span->End();
+      if (token) context::RuntimeContext::Detach(*token);
+    }
+    return out;
   }
   return "bad-op";
 }
